@@ -20,7 +20,7 @@ from xml.etree import ElementTree as ET
 from hypothesis import strategies as st
 
 from vlib import texrel, timegen as tg
-from vlib.core import HarnessError, Violation, guarded, lib_call
+from vlib.core import HarnessError, Violation, engine_limits, guarded, lib_call
 
 D = dtm.datetime
 DEFAULT_PAD = {"left": 2, "right": 2, "top": 3, "bottom": 2}
@@ -122,7 +122,8 @@ def run(spec, backend, ctx=None):
             doc = doc.decode("utf-8")
         return doc, t
 
-    return guarded(lambda: lib_call(thunk), ctx)
+    secs, budget = engine_limits(len(spec["data"]))
+    return guarded(lambda: lib_call(thunk), ctx, secs, budget)
 
 
 def export(spec, backend):
@@ -596,6 +597,20 @@ def check_c07(spec, P, tl_obj, backend, today):
                     tt = tg.EPOCH + timedelta(milliseconds=round(t))
                     if lib_call(fmt, tt) != text:
                         raise Violation("tick-text", "tick at %r reads %r, the instant there (%s) formats as %r" % (a(p), text, tt, fmt(tt)))
+        if backend == "tex" and not deg:
+            # TikZ prints tick origins with %i: compare with the truncation of where the scale's own ticks belong
+            # (the tick list itself is C13/C16's business; here the pairing of text and position is judged)
+            sc = tl_obj.options["scale"]
+            want = lib_call(lambda: list(sc.ticks()))
+            if len(want) != len(P["ticks"]):
+                raise Violation("tick-count", "%d ticks drawn, the scale has %d" % (len(P["ticks"]), len(want)))
+            for (p, text), tv in zip(P["ticks"], want):
+                tnum = float(tv) if kind == "linear" else (tv - tg.EPOCH) / tg.MS
+                pos = f(tnum)
+                if abs(a(p) - int(pos)) > 1e-9 and abs(a(p) - int(pos + 1e-9)) > 1e-9 and abs(a(p) - int(pos - 1e-9)) > 1e-9:
+                    raise Violation("tick-position", "tick %r drawn at %r, belongs at %r (truncated %r)" % (text, a(p), pos, int(pos)))
+                if lib_call(fmt, tv) != text:
+                    raise Violation("tick-text", "tick at %r reads %r, the value there formats as %r" % (a(p), text, fmt(tv)))
     elif P["ticks"] is not None:
         raise Violation("ticks-shown", "showTicks is off")
     return dict(got=got, nodeH=nodeH, gap=gap, lg=lg, sgn=sgn, L=L, deg=deg, f=f, maxlayer=max(g[3] for g in got))
